@@ -1,6 +1,85 @@
-import BR.Model.Lru
+import BR.Lemmas.LruOrder
+/-!
+# C03 — accounted size never exceeds max_size and equals entries plus reservations
+
+Statement (properties.jsonl): at every instant `currentSize` = Σ roundUp4k(sizeOnDisk) over the
+indexed entries + reserved bytes, ≤ max_size; the logical total and entry count are exact; reserved
+bytes return to zero when no request is in flight.
+
+Model: M1 (`BR.Model.Lru`), the index operations of lru.go, each of which the code runs inside one
+`diskCache.mu` region.  "Every instant" = every state reachable by a finite sequence of such
+operations (any interleaving of requests is a sequence of lock regions; that assumption is named in
+DESIGN.md §4 C07).  The disk-level statements (reservation released on every path) are in
+`BR.Props.C04`/M4.
+-/
 namespace BR.Props.C03
 open BR.Lru
-theorem placeholder : roundUp4k 1 = 4096 := by decide
-#print axioms placeholder
+
+/-- **C03 (index level), full statement**: from an empty cache with `0 ≤ maxSize < 2^63`, after any
+finite sequence of Add / Get / RemoveKey / RemoveElement / Reserve / Unreserve / background-unlink
+operations with non-negative item sizes:
+accounted size = reserved + Σ 4 KiB-rounded on-disk sizes, it is ≤ maxSize, the logical total is the
+sum of rounded logical sizes, reserved ≥ 0, keys are unique (entry count = number of distinct keys)
+and the eviction backlog counter equals the bytes queued. -/
+theorem accounting_exact_and_bounded (m hl : Int) (h0 : 0 ≤ m) (h1 : m < 9223372036854775808)
+    (ops : List Op) (hops : ∀ op ∈ ops, op.Wf) :
+    let l := run (init m hl) ops
+    l.cur = l.res + sumDisk l.order ∧ l.cur ≤ m ∧ l.unc = sumSize l.order ∧ 0 ≤ l.res ∧
+      (l.order.map Elem.key).Nodup ∧ l.qsize = sumQueue l.queue := by
+  intro l
+  have hinv : Inv l := inv_run (inv_init m hl h0 h1) ops hops
+  have hm : l.maxSize = m := (run_cfg (init m hl) ops).1
+  exact ⟨hinv.cur_eq, hm ▸ hinv.cur_le, hinv.unc_eq, hinv.res_nonneg, hinv.keys_nodup, hinv.q_eq⟩
+
+/-- the eviction loop of `Add` can never spin (the Go loop has no exit when the list is empty) and
+`Reserve` never reaches its "internal reservation error" -/
+theorem loops_never_stuck (m hl : Int) (h0 : 0 ≤ m) (h1 : m < 9223372036854775808)
+    (ops : List Op) (hops : ∀ op ∈ ops, op.Wf) (k : String) (v : Item) (hv : 0 ≤ v.sizeOnDisk ∧ 0 ≤ v.size)
+    (n : Int) :
+    (add (run (init m hl) ops) k v).2 ≠ .stuck ∧ (reserve (run (init m hl) ops) n).2 ≠ some .internal := by
+  have hinv := inv_run (inv_init m hl h0 h1) ops hops
+  exact ⟨(inv_add hinv k v hv).2, (inv_reserve hinv n).2⟩
+
+/-- a reservation followed by its release restores the reserved total (what every request path of
+disk.go does around its file I/O) -/
+theorem reserve_unreserve_restores (l : Lru) (hinv : Inv l) (n : Int) (hn : 0 < n)
+    (hok : (reserve l n).2 = none) :
+    (unreserve (reserve l n).1 n).2 = true ∧ (unreserve (reserve l n).1 n).1.res = l.res := by
+  obtain ⟨k, _, _, _, hres, _, _⟩ := reserve_ok_spec hinv n hn hok
+  have hinv' := (inv_reserve hinv n).1
+  have hc := hinv'.res_le_cur
+  have hr := hinv.res_nonneg
+  unfold unreserve
+  have hz : (n == 0) = false := by simp; omega
+  have hneg : ¬ n < 0 := by omega
+  simp only [hz, hneg, if_false, Bool.false_eq_true]
+  have hbad : (decide ((reserve l n).1.cur - n < 0) || decide ((reserve l n).1.res - n < 0)) = false := by
+    simp; omega
+  simp only [hbad, Bool.false_eq_true, if_false]
+  exact ⟨trivial, by omega⟩
+
+/-- the overflow-safe comparison used by `Reserve` is exact on int64 operands -/
+theorem sumLargerThan_exact (a b c : Int) (ha : 0 < a) (hb : 0 ≤ b) (ha' : a < 9223372036854775808)
+    (hb' : b < 9223372036854775808) (hc : c < 9223372036854775808) :
+    sumLargerThan a b c = decide (a + b > c) := sumLargerThan_correct a b c ha hb ha' hb' hc
+
+/-- the bit-level `roundUp4k` of lru.go equals the model's on every size that does not overflow -/
+theorem roundUp4k_bits (n : BitVec 64) (h : n.toNat + 4095 < 2 ^ 63) :
+    ((roundUp4kBV n).toNat : Int) = roundUp4k (n.toNat : Int) := roundUp4kBV_eq n h
+
+/-! non-vacuity: a concrete history (with an overwrite, an eviction and a reservation) meets the
+hypotheses, and its final state is what the theorem describes -/
+def sampleOps : List Op :=
+  [ .add "cas/a" ⟨5000, 3000, "r1", false⟩, .add "cas/b" ⟨100, 9000, "r2", false⟩, .reserve 4096,
+    .add "cas/a" ⟨7000, 8000, "r3", false⟩, .get "cas/b", .unreserve 4096, .drainOne ]
+
+example : (∀ op ∈ sampleOps, op.Wf) ∧ (run (init 20480 0) sampleOps).cur = 8192 ∧
+    (run (init 20480 0) sampleOps).order.length = 1 := by
+  refine ⟨by simp [sampleOps, Op.Wf], by decide, by decide⟩
+
+#print axioms accounting_exact_and_bounded
+#print axioms loops_never_stuck
+#print axioms reserve_unreserve_restores
+#print axioms sumLargerThan_exact
+#print axioms roundUp4k_bits
 end BR.Props.C03
